@@ -780,6 +780,13 @@ func c15Queries(target string) [][2]string {
 		{"filter-arg-first-of-two", "$.input.items[@.v.AnyOf($." + target + ".name,$.input.name)]"},
 		{"group-arg-first-of-two", "{AND,$.input.ok,{OR,$.input.name.AnyOf($." + target + ".name,$.input.name)}}"},
 		{"arg-in-arg", "$.input.name.Equal($.input.name.TrimLeft(0).AnyOf($." + target + ".name,$.input.name).Not().AsJSON())"},
+		// in a group nested in the condition of a filter, in the second (third) filter on one key, and both
+		{"group-in-filter", "$.input.items[OR,@.v.Equal(\"x\"),{AND,@.v.Equal($." + target + ".name)}]"},
+		{"group-in-filter-direct", "$.input.items[OR,@.v.Equal(\"x\"),{AND,$." + target + ".ok}]"},
+		{"group-in-group-in-filter", "$.input.items[{OR,{AND,{$." + target + ".ok}}}]"},
+		{"second-filter", "$.input.items[@.v.Equal(\"x\")][@.v.Equal($." + target + ".name)]"},
+		{"third-filter", "$.input.items[@.v.Equal(\"x\")][@.v.Equal(\"y\")][@.v.Equal($." + target + ".name)].First().v"},
+		{"second-filter-group", "{AND,$.input.ok,$.input.items[@.v.Equal(\"x\")][{OR,$." + target + ".ok}].Any()}"},
 	}
 }
 
@@ -838,8 +845,10 @@ func (c *Ctx) c15Check(root *CTy, txt string, all []string, cp, target, cls stri
 			switch pos {
 			case "", "mark", "at-root":
 				expect = "ACC String Single"
-			case "filter", "filter-arg-first-of-two":
+			case "filter", "filter-arg-first-of-two", "group-in-filter", "group-in-filter-direct", "group-in-group-in-filter", "second-filter":
 				expect = "ACC Object Array"
+			case "third-filter":
+				expect = "ACC String Single"
 			default:
 				expect = "ACC Boolean Single"
 			}
